@@ -2,12 +2,15 @@ from common import COMMON_TRUST
 
 PROP = {
     "generated": ["EnvelopeTables"],
-    "lean_modules": ["SwimVerif.Model.Envelope", "SwimVerif.Proofs.Envelope", "SwimVerif.Generated.EnvelopeTables"],
+    "lean_modules": ["SwimVerif.Model.Envelope", "SwimVerif.Proofs.Envelope", "SwimVerif.Generated.EnvelopeTables",
+                     "SwimVerif.Model.Routing", "SwimVerif.Model.RoutingMon", "SwimVerif.Proofs.Routing"],
     "engines": [
         {"name": "pure", "crate": "core", "bin": "sv-c11", "machine": "c11pure",
          "cases": {"quick": 24000, "thorough": 1600000}, "min_shard": 2000, "gen_args": ["pure"], "nontrivial_min_ops": 1},
         {"name": "fuzz", "crate": "core", "bin": "sv-c11", "machine": "c11pure", "modes": ["monitor"],
          "cases": {"quick": 24000, "thorough": 1600000}, "min_shard": 2000, "gen_args": ["fuzz"], "nontrivial_min_ops": 1},
+        {"name": "route", "crate": "core", "bin": "sv-c11", "machine": "c11route",
+         "cases": {"quick": 12000, "thorough": 600000}, "min_shard": 1000, "gen_args": ["route"]},
     ],
     "level_text": "TODO",
     "level_note": "TODO",
